@@ -13,6 +13,23 @@ def subsequence(words, hay):
     return i == len(words)
 
 
+def entry_section(doc, name):
+    """Words of the entry `name (...):` of an Attributes: / Values: list, or None when there is no such entry."""
+    import re
+    lines = (doc or '').split('\n')
+    for i, l in enumerate(lines):
+        m = re.match(r'^(\s*)' + re.escape(name) + r'_? \(.*\):\s*$', l)
+        if m:
+            ind = len(m.group(1))
+            body = []
+            for l2 in lines[i + 1:]:
+                if l2.strip() and len(l2) - len(l2.lstrip()) <= ind:
+                    break
+                body.append(l2)
+            return ' '.join(body).split()
+    return None
+
+
 def main(p):
     a = p.args
     out = dict(checked=0, failures=[], samples=[])
@@ -51,6 +68,15 @@ def main(p):
                                         doc=(doc or '')[:300]))
         elif len(out['samples']) < 2:
             out['samples'].append(dict(element=full, kind=kind, comment=text))
+        # ... and sit under the entry of the element they were written for
+        if kind in ('field', 'enum_value') and doc:
+            sec = entry_section(doc, full.rsplit('.', 1)[1])
+            if sec is not None:
+                out['checked'] += 1
+                if not subsequence(words, sec):
+                    out['failures'].append(dict(element=full, kind=kind + '-entry', place=places.get(full, 'leading'),
+                                                what='the comment is not under the entry of its own element', text=text,
+                                                doc=' '.join(sec)[:300]))
         # a method's docstring also describes its request ("The request object. <comment>") and what it returns
         if kind == 'method':
             svc, m = full.rsplit('.', 2)[1:]
